@@ -983,6 +983,30 @@ const NT_FAIL_AFTER_CONSUME: u8 = 1;
 const NT_REPETITION: u8 = 2;
 const NT_FELL_THROUGH: u8 = 4;
 
+// features of delimited lists met while evaluating the model (class histogram only)
+const F_LEAD: u16 = 1;
+const F_LEAD_ABSORB: u16 = 2;
+const F_DOUBLED: u16 = 4;
+const F_TRAILING: u16 = 8;
+const F_MISSING: u16 = 16;
+const F_LIST2: u16 = 32;
+/// the real parser matched the alternative reading of a leading delimiter (soft failure, rewound)
+const F_ALT_READING: u16 = 64;
+const F_LEAD_THEN_ELEMENT: u16 = 128;
+
+fn feat_class(f: u16) -> [(&'static str, bool); 8] {
+    [
+        ("delim:leading-delimiter", f & F_LEAD != 0),
+        ("delim:leading-delimiter:under-soft-absorbing-combinator", f & F_LEAD_ABSORB != 0),
+        ("delim:leading-delimiter:element-follows", f & F_LEAD_THEN_ELEMENT != 0),
+        ("delim:leading-delimiter:matched-soft-rewound-reading", f & F_ALT_READING != 0),
+        ("delim:doubled-delimiter", f & F_DOUBLED != 0),
+        ("delim:trailing-delimiter", f & F_TRAILING != 0),
+        ("delim:missing-element-collected", f & F_MISSING != 0),
+        ("delim:list>=2", f & F_LIST2 != 0),
+    ]
+}
+
 /// `Err(reason)`: the documentation does not determine the behaviour (or a documented
 /// precondition is violated); the case is discarded and counted, never run.
 type R = Result<(Out, usize), &'static str>;
@@ -993,13 +1017,30 @@ pub struct Model<'a> {
     start0: usize,
     maxpos: usize,
     nt: u8,
+    /// Reading of "a delimiter before the first element" under `delimited_by` (missing elements not
+    /// supported): false = rejected with the given fatal error (the delimiter has no element in front
+    /// of it, exactly as for `a,,b`); true = the list does not start here: soft failure, input rewound.
+    /// The documentation admits both; nothing else (in particular no soft failure that keeps the
+    /// delimiter consumed, and no success) is admitted by the property statement.
+    lead_soft: bool,
+    /// indices (into `trace`) of the exit events decided by that reading
+    lead_exits: Vec<usize>,
+    /// pending leading-delimiter decisions: (node id) whose exit event is recorded by `ev`
+    lead_pending: Vec<u16>,
+    /// nesting depth of combinators that turn a soft failure into success or into another attempt
+    absorb: u32,
+    feat: u16,
 }
 
 const MAX_TRACE: usize = 20_000;
 
 impl<'a> Model<'a> {
     fn new(w: &'a [char], start: usize) -> Model<'a> {
-        Model { w, trace: Vec::with_capacity(64), start0: start, maxpos: start, nt: 0 }
+        Model::with_reading(w, start, false)
+    }
+
+    fn with_reading(w: &'a [char], start: usize, lead_soft: bool) -> Model<'a> {
+        Model { w, trace: Vec::with_capacity(64), start0: start, maxpos: start, nt: 0, lead_soft, lead_exits: vec![], lead_pending: vec![], absorb: 0, feat: 0 }
     }
 
     fn ev(&mut self, e: &E, id: u16, i: usize, ctx: Option<&str>) -> R {
@@ -1009,7 +1050,14 @@ impl<'a> Model<'a> {
             }
             self.trace.push(Ev { id, kind: ENTER, tag: 0, pos: i as u8, h: 0 });
         }
+        let absorbs = matches!(e.k, K::ToOption | K::OrDefault | K::OrN | K::Or2 | K::Many(_) | K::ManyCtx(_) | K::AndThenErr(EF::Ok) | K::Surround(false) | K::Delim(..));
+        if absorbs {
+            self.absorb += 1;
+        }
         let (out, j) = self.ev_inner(e, id, i, ctx)?;
+        if absorbs {
+            self.absorb -= 1;
+        }
         if j > self.maxpos {
             self.maxpos = j;
         }
@@ -1022,6 +1070,10 @@ impl<'a> Model<'a> {
                 Out::Soft(t) => Ev { id, kind: SOFT, tag: t.unwrap_or(ANYTAG), pos: j as u8, h: 0 },
                 Out::Fatal(t) => Ev { id, kind: FATAL, tag: t.unwrap_or(ANYTAG), pos: j as u8, h: 0 },
             };
+            if self.lead_pending.last() == Some(&id) && matches!(e.k, K::Delim(false, _)) {
+                self.lead_pending.pop();
+                self.lead_exits.push(self.trace.len());
+            }
             self.trace.push(ev);
         }
         Ok((out, j))
@@ -1361,11 +1413,41 @@ impl<'a> Model<'a> {
                             }
                             if !have {
                                 if allow_missing {
+                                    self.feat |= F_MISSING;
                                     items.push("N".to_string());
                                 } else if last == 0 {
-                                    return Err("undocumented:leading-delimiter-in-delimited_by");
+                                    // A delimiter before the first element. "Missing elements are not
+                                    // supported" (NormalElementCollector) and the property statement leave two
+                                    // readings: the given fatal error (no element in front of the delimiter),
+                                    // or "no list here" = soft failure with the input rewound. `lead_soft`
+                                    // selects the reading; run_case accepts the real parser under either.
+                                    self.feat |= F_LEAD;
+                                    // absorb counts this node itself
+                                    if self.absorb > 1 {
+                                        self.feat |= F_LEAD_ABSORB;
+                                    }
+                                    // Is the leading delimiter also a TRAILING one (no element after it)? Then the
+                                    // error value is documented ("the given error"); otherwise only "fatal" is.
+                                    // Pure look-ahead on a scratch model, nothing is recorded.
+                                    let mut scratch = Model::with_reading(w, j, self.lead_soft);
+                                    let trailing_too = match scratch.ev(&e.c[0], NO_PROBE, j, ctx) {
+                                        Ok((Out::Ok(_), _)) => {
+                                            self.feat |= F_LEAD_THEN_ELEMENT;
+                                            false
+                                        }
+                                        Ok((Out::Soft(_), _)) => true,
+                                        _ => false,
+                                    };
+                                    if id != NO_PROBE {
+                                        self.lead_pending.push(id);
+                                    }
+                                    if self.lead_soft {
+                                        return Ok((Out::Soft(None), i));
+                                    }
+                                    return Ok((Out::Fatal(if trailing_too { Some(k) } else { None }), j));
                                 } else {
                                     // a delimiter that is not followed by an element
+                                    self.feat |= F_DOUBLED;
                                     return Ok((Out::Fatal(Some(k)), j));
                                 }
                             }
@@ -1388,12 +1470,16 @@ impl<'a> Model<'a> {
                 }
                 if items.len() >= 2 {
                     self.nt |= NT_REPETITION;
+                    self.feat |= F_LIST2;
                 }
                 match last {
                     // which soft error is returned is not documented
                     0 => (Out::Soft(None), cur),
                     1 => (Out::Ok(format!("[{}]", items.join(","))), cur),
-                    _ => (Out::Fatal(Some(k)), cur),
+                    _ => {
+                        self.feat |= F_TRAILING;
+                        (Out::Fatal(Some(k)), cur)
+                    }
                 }
             }
             // seqN: the first may fail softly, "the rest must succeed": any later error is fatal
@@ -1537,8 +1623,8 @@ impl Prepared {
 
 pub enum CaseResult {
     Discard(&'static str),
-    /// non-trivial flags, outcome class (OK/SOFT/FATAL)
-    Done(u8, u8),
+    /// non-trivial flags, outcome class (OK/SOFT/FATAL), delimited-list features
+    Done(u8, u8, u16),
     Fail(Box<Violation>),
 }
 
@@ -1770,11 +1856,20 @@ fn node_invariants(ni: &NodeInfo, start: u8, ex: &Ev, kids: &[Call]) -> Result<(
                 return Err("soft-failure-did-not-restore-position");
             }
         }
-        K::Delim(_, k) => {
+        K::Delim(allow_missing, k) => {
             // delimited lists reject a trailing delimiter with the given fatal error
             if let Some(c) = kids.iter().rev().find(|c| c.kind == OK) {
                 if Some(&c.id) == ni.kids.get(1) && !any_dirty && !(ex.kind == FATAL && ex.tag == k) {
-                    return Err("trailing-delimiter-not-rejected-with-the-given-fatal-error");
+                    // a delimiter before the first element of `delimited_by`: either a fatal error (which one is
+                    // documented for trailing delimiters only), or "no list here" - a soft failure that leaves
+                    // the input where it started
+                    let leading = !allow_missing && !kids.iter().any(|c| c.kind == OK && Some(&c.id) == ni.kids.first());
+                    if !leading {
+                        return Err("trailing-delimiter-not-rejected-with-the-given-fatal-error");
+                    }
+                    if ex.kind != FATAL && !(ex.kind == SOFT && end == start) {
+                        return Err(if ex.kind == SOFT { "leading-delimiter-soft-failure-consumed-the-delimiter" } else { "leading-delimiter-accepted" });
+                    }
                 }
             }
             if ex.kind == SOFT && !any_dirty && end != start {
@@ -1801,20 +1896,47 @@ fn case_inputs(p: &Prepared, w: &[char], start: usize) -> Value {
 /// Runs one (expression, input, start position) case.
 pub fn run_case(p: &mut Prepared, w: &[char], start: usize) -> CaseResult {
     let mut m = Model::new(w, start);
-    let (mout, mpos) = match m.ev(&p.e, 0, start, None) {
+    let (mut mout, mut mpos) = match m.ev(&p.e, 0, start, None) {
         Err(reason) => return CaseResult::Discard(reason),
         Ok(x) => x,
     };
+    // a leading delimiter under `delimited_by` has a second admissible reading (soft failure, rewound)
+    let mut alt: Option<(Model, Out, usize)> = None;
+    // ... under which the case may be undetermined (precondition violated further up): (model, reason)
+    let mut alt_undetermined: Option<(Model, &'static str)> = None;
+    if m.feat & F_LEAD != 0 {
+        let mut mb = Model::with_reading(w, start, true);
+        match mb.ev(&p.e, 0, start, None) {
+            Ok((o, j)) => alt = Some((mb, o, j)),
+            Err(reason) => alt_undetermined = Some((mb, reason)),
+        }
+    }
+    let model_len = m.trace.len().max(alt.as_ref().map(|a| a.0.trace.len()).unwrap_or(0));
     if p.fresh || p.parser.is_none() {
         p.parser = Some(build(&p.e, 0));
     }
     let parser = p.parser.as_mut().unwrap();
     let mut input = TI::new(w, start);
     TRACE.with(|t| t.borrow_mut().clear());
-    FUEL.with(|f| f.set(128 + 48 * m.trace.len() as u64));
+    FUEL.with(|f| f.set(128 + 48 * model_len as u64));
     let r = panics::guarded(|| parser.parse(&mut input));
     let real: Vec<Ev> = TRACE.with(|t| std::mem::take(&mut *t.borrow_mut()));
     let give_back = |real: Vec<Ev>| TRACE.with(|t| *t.borrow_mut() = real);
+    if let Some((mb, reason)) = &alt_undetermined {
+        // Both readings agree up to the first leading delimiter. A real parser that takes the soft-rewound
+        // reading there is in a case that reading leaves undetermined: discard (never on a parser that
+        // answers with the fatal error, as the unchanged tree does).
+        if let Some(&ix) = mb.lead_exits.first() {
+            if ix < real.len() && ix < mb.trace.len() && (0..=ix).all(|q| ev_diff(&mb.trace[q], &real[q]).is_none()) {
+                if r.is_err() {
+                    p.parser = None;
+                }
+                let reason = *reason;
+                give_back(real);
+                return CaseResult::Discard(reason);
+            }
+        }
+    }
     let r = match r {
         Err(pi) => {
             // parser state is unknown after an unwinding
@@ -1835,22 +1957,24 @@ pub fn run_case(p: &mut Prepared, w: &[char], start: usize) -> CaseResult {
         Ok(r) => r,
     };
     // node-by-node comparison (the last event is the top-level result and position)
-    let mt = &m.trace;
-    let mut diff: Option<(usize, &'static str)> = None;
-    for idx in 0..mt.len().max(real.len()) {
-        match (mt.get(idx), real.get(idx)) {
-            (Some(a), Some(b)) => {
-                if let Some(what) = ev_diff(a, b) {
-                    diff = Some((idx, what));
-                    break;
-                }
-            }
-            _ => {
-                diff = Some((idx, "call-sequence"));
-                break;
+    let mut diff = trace_diff(&m.trace, &real);
+    if diff.is_some() {
+        if let Some((mb, o, j)) = alt.take() {
+            let same_text = match (&o, &r) {
+                (Out::Ok(a), Ok(b)) => a == b,
+                _ => true,
+            };
+            if same_text && trace_diff(&mb.trace, &real).is_none() {
+                // the real parser follows the other admissible reading, consistently
+                m = mb;
+                m.feat |= F_ALT_READING;
+                mout = o;
+                mpos = j;
+                diff = None;
             }
         }
     }
+    let mt = &m.trace;
     // debugging aid for sensitivity runs: C20_INVARIANTS_ONLY=1 skips the model comparison so that the
     // direct invariants can be shown to catch a mutant on their own
     static INV_ONLY: std::sync::OnceLock<bool> = std::sync::OnceLock::new();
@@ -1884,13 +2008,29 @@ pub fn run_case(p: &mut Prepared, w: &[char], start: usize) -> CaseResult {
         };
         let sig = match (k, me, re) {
             (K::MapFatal(_), Some(a), Some(b)) if a.kind == SOFT && b.kind == FATAL => "map_fatal_err-maps-soft".to_string(),
+            // the exit of a `delimited_by` that met a delimiter before its first element (neither a fatal
+            // error nor a rewound soft failure, the two readings the documentation admits)
+            (K::Delim(false, _), Some(_), Some(b)) if m.lead_exits.contains(&idx) => format!(
+                "delimited_by:leading-delimiter:{}",
+                match b.kind {
+                    OK => "accepted",
+                    SOFT => "soft-failure-keeps-the-delimiter-consumed",
+                    ENTER => "parsing-went-on",
+                    _ => "wrong-fatal-error",
+                }
+            ),
             _ => format!("{}:{}", k.name(), detail),
         };
-        let v = Violation::new(
-            sig,
-            format!("combinator `{}` (node #{}) deviates from its documented behaviour: {}", k.name(), node, detail),
-            case_inputs(p, w, start),
-        )
+        let what = if sig.starts_with("delimited_by:leading-delimiter:") {
+            format!(
+                "`delimited_by` (node #{}, missing elements not supported) met a delimiter before its first element: the documentation admits a fatal error (the given one when no element follows the delimiter either), or a soft failure that leaves the input where it started; observed {}",
+                node,
+                re.map(show_ev).unwrap_or_default()
+            )
+        } else {
+            format!("combinator `{}` (node #{}) deviates from its documented behaviour: {}", k.name(), node, detail)
+        };
+        let v = Violation::new(sig, what, case_inputs(p, w, start))
         .exp_obs(
             json!({"result": mout.show(), "position": mpos, "node_event": me.map(show_ev), "trace": show_trace(mt)}),
             json!({"result": real_result_show(&r), "position": input.pos, "node_event": re.map(show_ev), "trace": show_trace(&real)}),
@@ -1919,7 +2059,21 @@ pub fn run_case(p: &mut Prepared, w: &[char], start: usize) -> CaseResult {
         Out::Soft(_) => SOFT,
         Out::Fatal(_) => FATAL,
     };
-    CaseResult::Done(m.nt, class)
+    CaseResult::Done(m.nt, class, m.feat)
+}
+
+fn trace_diff(mt: &[Ev], real: &[Ev]) -> Option<(usize, &'static str)> {
+    for idx in 0..mt.len().max(real.len()) {
+        match (mt.get(idx), real.get(idx)) {
+            (Some(a), Some(b)) => {
+                if let Some(what) = ev_diff(a, b) {
+                    return Some((idx, what));
+                }
+            }
+            _ => return Some((idx, "call-sequence")),
+        }
+    }
+    None
 }
 
 // ---------------------------------------------------------------------------
@@ -1966,8 +2120,15 @@ fn run_expr(sh: &mut Shard, agg: &mut Agg, e: E, cases: &mut dyn Iterator<Item =
     for (w, start) in cases {
         match run_case(&mut p, w, start) {
             CaseResult::Discard(reason) => *agg.discards.entry(reason).or_insert(0) += 1,
-            CaseResult::Done(nt, class) => {
+            CaseResult::Done(nt, class, feat) => {
                 ran += 1;
+                if feat != 0 {
+                    for (name, on) in feat_class(feat) {
+                        if on {
+                            agg.class(name, 1);
+                        }
+                    }
+                }
                 agg.class(
                     match class {
                         OK => "outcome:ok",
@@ -2399,9 +2560,16 @@ fn random_case(sh: &mut Shard, tape: &[u32], max_depth: u32) -> Result<(), Viola
         let start = if t.chance(1, 3) { t.choose(len + 1) } else { 0 };
         match run_case(&mut p, &w, start) {
             CaseResult::Discard(reason) => sh.discard(reason),
-            CaseResult::Done(nt, class) => {
+            CaseResult::Done(nt, class, feat) => {
                 sh.eval();
                 sh.class("random:cases");
+                if feat != 0 {
+                    for (name, on) in feat_class(feat) {
+                        if on {
+                            sh.class(name);
+                        }
+                    }
+                }
                 sh.class(match class {
                     OK => "outcome:ok",
                     SOFT => "outcome:soft",
@@ -2432,6 +2600,296 @@ fn random_case(sh: &mut Shard, tape: &[u32], max_depth: u32) -> Result<(), Viola
 }
 
 // ---------------------------------------------------------------------------
+// list-shaped expressions x delimiter layouts (tape-decoded)
+// ---------------------------------------------------------------------------
+//
+// The general generators reach `delimited_by` with arbitrary children, where most inputs end in a
+// precondition discard or an empty list. This part builds the shapes lists are used in
+// (`open list.or_default() close`, choice between a list and something else, lists of lists, ...)
+// from elements and delimiters that consume input, and draws the input from LAYOUTS of element and
+// delimiter witnesses: clean, leading delimiter, doubled delimiter, trailing delimiter, lone delimiter.
+// The oracle is the same `run_case` (model + invariants); the layout only steers the input.
+
+/// (expression, a word it accepts)
+type Piece = (E, Vec<char>);
+
+fn one_str(c: char) -> E {
+    E::leaf(K::OneStr(c))
+}
+
+fn gen_element(t: &mut Tape) -> Piece {
+    let abc = ['a', 'b', 'c'];
+    match t.choose(10) {
+        0 => {
+            let c = *t.pick(&abc);
+            (E::leaf(K::One(c)), vec![c])
+        }
+        1 => {
+            let c = *t.pick(&abc);
+            (one_str(c), vec![c])
+        }
+        2 => {
+            let cs = CS(1 + t.choose(6) as u8);
+            (E::leaf(K::OneOf(cs)), vec![cs.slice()[0]])
+        }
+        3 => {
+            let cs = CS(1 + t.choose(6) as u8);
+            let c = cs.slice()[0];
+            (E::leaf(K::ManyStr(cs)), if t.chance(1, 2) { vec![c, c] } else { vec![c] })
+        }
+        // two characters: a soft failure after the first one (rewound by `and`)
+        4 => {
+            let (x, y) = (*t.pick(&abc), *t.pick(&abc));
+            (E::new(K::And(AK::Concat), vec![one_str(x), one_str(y)]), vec![x, y])
+        }
+        5 => (E::new(K::Filter(Pred::NotA), vec![E::leaf(K::Read)]), vec!['b']),
+        6 => {
+            let (x, y) = (*t.pick(&abc), *t.pick(&abc));
+            (E::new(K::OrN, vec![E::leaf(K::One(x)), E::leaf(K::One(y))]), vec![x])
+        }
+        7 => {
+            let c = *t.pick(&abc);
+            (E::new(K::Map, vec![E::leaf(K::One(c))]), vec![c])
+        }
+        // elements that can fail fatally
+        8 => {
+            let cs = CS(1 + t.choose(6) as u8);
+            (E::new(K::AndThen(Pred::NotA, Er::F(90)), vec![E::leaf(K::OneOf(cs))]), vec![cs.slice()[0]])
+        }
+        _ => {
+            let (x, y) = (*t.pick(&abc), *t.pick(&abc));
+            (E::new(K::Seq, vec![E::leaf(K::One(x)), E::leaf(K::One(y))]), vec![x, y])
+        }
+    }
+}
+
+fn gen_delimiter(t: &mut Tape) -> Piece {
+    let abc = ['a', 'b', 'c'];
+    match t.choose(6) {
+        // `b` first: with the simplest element (`one a`) the simplest delimiter is a different character
+        0 => {
+            let c = *t.pick(&['b', 'c', 'a']);
+            (E::leaf(K::One(c)), vec![c])
+        }
+        1 => {
+            let c = *t.pick(&['b', 'c', 'a']);
+            (one_str(c), vec![c])
+        }
+        2 => {
+            let cs = CS(1 + t.choose(6) as u8);
+            (E::leaf(K::OneOf(cs)), vec![*cs.slice().last().unwrap()])
+        }
+        3 => {
+            let c = *t.pick(&['b', 'c', 'a']);
+            (E::new(K::Unit, vec![E::leaf(K::One(c))]), vec![c])
+        }
+        // two characters (like ", "): soft failure after the first, rewound
+        4 => {
+            let (x, y) = (*t.pick(&abc), *t.pick(&abc));
+            (E::new(K::And(AK::Left), vec![E::leaf(K::One(x)), E::leaf(K::One(y))]), vec![x, y])
+        }
+        // optional trailing part (like "," followed by optional blanks)
+        _ => {
+            let (x, y) = (*t.pick(&['b', 'c', 'a']), *t.pick(&abc));
+            (E::new(K::And(AK::Left), vec![E::leaf(K::One(x)), E::new(K::ToOption, vec![E::leaf(K::One(y))])]), vec![x])
+        }
+    }
+}
+
+const LIST_WRAPPERS: [&str; 16] = [
+    "list:shape:bare",
+    "list:shape:or_default",
+    "list:shape:to_option",
+    "list:shape:open-or_default-close(surround-mandatory)",
+    "list:shape:surround-optional",
+    "list:shape:choice-list-first",
+    "list:shape:choice-list-last",
+    "list:shape:or2",
+    "list:shape:seq-open-or_default-close",
+    "list:shape:and-list-tail",
+    "list:shape:and-head-list",
+    "list:shape:many-of-terminated-lists",
+    "list:shape:peek",
+    "list:shape:list-of-lists",
+    "list:shape:filter",
+    "list:shape:or_default-then-rest",
+];
+
+/// Returns (expression, shape index, witnesses of element, delimiter, opening and closing part).
+fn gen_list_expr(t: &mut Tape) -> (E, usize, Vec<char>, Vec<char>, Vec<char>, Vec<char>) {
+    let abc = ['a', 'b', 'c'];
+    let (el, ew) = gen_element(t);
+    let (de, dw) = gen_delimiter(t);
+    // three lists out of four do not support missing elements
+    let allow_missing = t.choose(4) == 3;
+    let list = E::new(K::Delim(allow_missing, 100 + t.choose(3) as u8), vec![el.clone(), de.clone()]);
+    let shape = t.choose(LIST_WRAPPERS.len());
+    let open = *t.pick(&['c', 'a', 'b']);
+    let close = *t.pick(&['c', 'a', 'b']);
+    let one = |c: char| E::leaf(K::One(c));
+    let dflt = |e: E| E::new(K::OrDefault, vec![e]);
+    let (mut ow, mut cw): (Vec<char>, Vec<char>) = (vec![], vec![]);
+    let e = match shape {
+        0 => list,
+        1 => dflt(list),
+        2 => E::new(K::ToOption, vec![list]),
+        3 => {
+            ow = vec![open];
+            cw = vec![close];
+            E::new(K::Surround(true), vec![one(open), dflt(list), one(close)])
+        }
+        4 => {
+            ow = vec![open];
+            cw = vec![close];
+            E::new(K::Surround(false), vec![one(open), list, one(close)])
+        }
+        5 => {
+            // the alternative starts with the delimiter: it matches exactly when the list must not
+            let alt = E::new(K::And(AK::Concat), vec![E::new(K::Map, vec![de.clone()]), E::new(K::Map, vec![el.clone()])]);
+            E::new(K::OrN, vec![list, alt, E::leaf(K::Read)])
+        }
+        6 => E::new(K::OrN, vec![one(open), list]),
+        7 => {
+            let alt = E::new(K::And(AK::Right), vec![de.clone(), E::leaf(K::Sup(0))]);
+            E::new(K::Or2, vec![list, alt])
+        }
+        8 => {
+            ow = vec![open];
+            cw = vec![close];
+            E::new(K::Seq, vec![one(open), dflt(list), one(close)])
+        }
+        9 => {
+            cw = vec![close];
+            E::new(K::And(gen_ak(t)), vec![list, one(close)])
+        }
+        10 => {
+            ow = vec![open];
+            E::new(K::And(gen_ak(t)), vec![one(open), list])
+        }
+        11 => {
+            cw = vec![close];
+            E::new(K::Many(*t.pick(&[MK::Many, MK::ManyNone, MK::OneOrMore, MK::ZeroOrMore])), vec![E::new(K::And(AK::Left), vec![dflt(list), one(close)])])
+        }
+        12 => E::new(K::Peek, vec![list]),
+        13 => {
+            let outer = *t.pick(&abc);
+            cw = vec![outer];
+            E::new(K::Delim(t.chance(1, 2), 103), vec![list, one(outer)])
+        }
+        14 => E::new(K::Filter(gen_pred(t)), vec![list]),
+        _ => E::new(K::And(AK::Tuple), vec![dflt(list), E::new(K::Many(MK::ManyNone), vec![E::leaf(K::Read)])]),
+    };
+    (e, shape, ew, dw, ow, cw)
+}
+
+const LIST_INPUTS: usize = 16;
+
+fn gen_layout_word(t: &mut Tape, ew: &[char], dw: &[char], ow: &[char], cw: &[char]) -> Vec<char> {
+    let abc = ['a', 'b', 'c'];
+    let mut w: Vec<char> = vec![];
+    let layout = t.choose(8);
+    if layout == 7 {
+        let len = t.choose(9);
+        return (0..len).map(|_| *t.pick(&abc)).collect();
+    }
+    if !ow.is_empty() && t.choose(8) != 7 {
+        w.extend_from_slice(ow);
+    }
+    // E = element witness, D = delimiter witness
+    let body: &[u8] = match layout {
+        0 => b"EDE",
+        1 => b"DE",
+        2 => b"D",
+        3 => b"EDDE",
+        4 => b"ED",
+        5 => b"DDE",
+        _ => b"",
+    };
+    if layout == 6 {
+        // free mixture of witnesses and single characters
+        for _ in 0..t.choose(5) {
+            match t.choose(3) {
+                0 => w.extend_from_slice(ew),
+                1 => w.extend_from_slice(dw),
+                _ => w.push(*t.pick(&abc)),
+            }
+        }
+    } else {
+        for b in body {
+            w.extend_from_slice(if *b == b'E' { ew } else { dw });
+        }
+        // sometimes one more round, so that lists of lists and repetitions see a second list
+        if t.choose(4) == 3 {
+            w.extend_from_slice(cw);
+            w.extend_from_slice(if t.chance(1, 2) { dw } else { ew });
+        }
+    }
+    if !cw.is_empty() && t.choose(8) != 7 {
+        w.extend_from_slice(cw);
+    }
+    if t.choose(6) == 5 {
+        w.push(*t.pick(&abc));
+    }
+    w.truncate(MAX_INPUT);
+    w
+}
+
+fn list_case(sh: &mut Shard, tape: &[u32]) -> Result<(), Violation> {
+    let mut t = Tape::new(tape);
+    let (e, shape, ew, dw, ow, cw) = gen_list_expr(&mut t);
+    debug_assert!(!scoping(&e).ill_scoped);
+    let mut p = Prepared::new(e);
+    debug_assert_eq!(parse_expr(&p.text).as_ref(), Ok(&p.e));
+    sh.journal(&p.text);
+    sh.class("list:expressions");
+    sh.class(LIST_WRAPPERS[shape]);
+    let mut seen_nt = 0u16;
+    for _ in 0..LIST_INPUTS {
+        let w = gen_layout_word(&mut t, &ew, &dw, &ow, &cw);
+        match run_case(&mut p, &w, 0) {
+            CaseResult::Discard(reason) => sh.discard(reason),
+            CaseResult::Done(nt, class, feat) => {
+                sh.eval();
+                sh.class("list:cases");
+                sh.class(match class {
+                    OK => "outcome:ok",
+                    SOFT => "outcome:soft",
+                    _ => "outcome:fatal",
+                });
+                for (name, on) in feat_class(feat) {
+                    if on {
+                        sh.class(name);
+                        if name == "delim:leading-delimiter" {
+                            sh.class("list:cases:leading-delimiter");
+                        }
+                    }
+                }
+                if nt != 0 {
+                    sh.class("nontrivial-case");
+                    for (name, on) in nt_class(nt) {
+                        if on {
+                            sh.class(name);
+                        }
+                    }
+                }
+                // a leading delimiter that was decided counts as non-trivial for this part
+                let key = nt | if feat & F_LEAD != 0 { 8 } else { 0 };
+                if key != 0 && seen_nt & (1 << key) == 0 {
+                    seen_nt |= 1 << key;
+                    sh.nontrivial(hash64(&(&p.text, key)));
+                }
+            }
+            CaseResult::Fail(v) => {
+                sh.eval();
+                sh.triage(*v)?;
+            }
+        }
+    }
+    sh.sample_sparse(997, || json!({"expr": p.text, "part": "list shapes x delimiter layouts"}));
+    Ok(())
+}
+
+// ---------------------------------------------------------------------------
 // the property
 // ---------------------------------------------------------------------------
 
@@ -2447,7 +2905,7 @@ impl Prop for C20 {
         "C20"
     }
     fn rule(&self) -> &'static str {
-        "Parser expressions are data over 9 primitives and 39 combinator forms of rusty_pc; each is built into a real parser over the harness's own InputTrait/ParserErrorTrait types (every node wrapped in a transparent probe) and compared, node by node (outcome, output, error value, position), with a denotational model written from the doc comments; the statement's invariants are asserted on the real call tree as well. Enumerated part: every well-scoped expression with <= 4 nodes and depth <= 2 x all 1093 words over {a,b,c} of length <= 6 from position 0, plus every expression with 5 nodes and depth <= 2 x all 121 words of length <= 4 (quick); thorough: every expression with <= 4 nodes x all 1093 words and every expression with 5 nodes and depth <= 3 x all 364 words of length <= 5. Random part: tape-decoded expressions of depth <= 4 (<= 40 nodes) x 16 random words of length <= 10, one third from a random start position. A case is non-trivial when a soft or fatal failure happened after input had been consumed, or a repetition/delimited list collected >= 2 elements, or a choice fell through >= 1 alternative. distinct_nontrivial counts (expression, set of non-trivial events) pairs (expressions for the 5-node slices), because 10^8..10^10 per-case hashes cannot be kept; the exact number of non-trivial cases is the class `nontrivial-case`. Cases where the documentation does not determine the behaviour or a documented precondition is violated are decided in the model, discarded and counted, never run."
+        "Parser expressions are data over 9 primitives and 39 combinator forms of rusty_pc; each is built into a real parser over the harness's own InputTrait/ParserErrorTrait types (every node wrapped in a transparent probe) and compared, node by node (outcome, output, error value, position), with a denotational model written from the doc comments; the statement's invariants are asserted on the real call tree as well. Enumerated part: every well-scoped expression with <= 4 nodes and depth <= 2 x all 1093 words over {a,b,c} of length <= 6 from position 0, plus every expression with 5 nodes and depth <= 2 x all 121 words of length <= 4 (quick); thorough: every expression with <= 4 nodes x all 1093 words and every expression with 5 nodes and depth <= 3 x all 364 words of length <= 5. Random part: tape-decoded expressions of depth <= 4 (<= 40 nodes) x 16 random words of length <= 10, one third from a random start position. List part: 16 shapes lists are used in (bare, or_default, to_option, open list.or_default() close as mandatory surround and as seq, optional surround, choice with the list first/last, two-way or, and with a head/tail, repetition of terminated lists, peek, filter, list of lists, list then rest) over 10 element forms and 6 delimiter forms that consume input (single and two-character, fatal-capable elements), delimited_by three times out of four, x 16 words drawn from delimiter LAYOUTS of element/delimiter witnesses (clean, leading, lone, doubled, trailing, double leading, free mixture, random); same oracle. A delimiter before the first element of delimited_by (missing elements not supported) is decided under both readings the documentation admits - a fatal error (the given one if no element follows either, i.e. the delimiter is trailing as well) or a soft failure with the input where it started - and the real parser must follow one of them consistently, node by node; the classes `delim:*` count the layouts met by the model (leading, leading under a soft-absorbing combinator, leading with an element after it, doubled, trailing, missing element collected, list >= 2). A case is non-trivial when a soft or fatal failure happened after input had been consumed, or a repetition/delimited list collected >= 2 elements, or a choice fell through >= 1 alternative. distinct_nontrivial counts (expression, set of non-trivial events) pairs (expressions for the 5-node slices), because 10^8..10^10 per-case hashes cannot be kept; the exact number of non-trivial cases is the class `nontrivial-case`. Cases where the documentation does not determine the behaviour or a documented precondition is violated are decided in the model, discarded and counted, never run."
     }
     fn assumptions(&self) -> Vec<&'static str> {
         vec![
@@ -2455,7 +2913,8 @@ impl Prop for C20 {
             "the position after a FATAL error is not compared (no documentation defines it; no combinator continues after a fatal error)",
             "and_then / and_then_err / flatten do not rewind (documented); a soft failure that has consumed input is only followed where a rewind is explicit in the contract (right side of `and`, non-last OrParser alternative, main parser of an optional surround) or where the wrapper is a pure decorator; under every other combinator the case is discarded as precondition violation",
             "repetition over an element (or a delimiter) that can succeed without consuming loops forever by design: detected in the model and discarded",
-            "delimited_by with a leading delimiter, and a fatal delimiter right after a trailing delimiter, are not documented: discarded",
+            "delimited_by with a delimiter before the first element: 'missing elements are not supported' and the statement (soft failure leaves the input where it started; a trailing delimiter is rejected fatally with the given error) admit exactly two behaviours - a fatal error (value compared only when the delimiter is also trailing, i.e. no element follows it) or a soft failure (value not compared) at the start position; the model is evaluated under both readings and the real parser has to match one of them over the whole call tree; a success, or a soft failure that keeps the delimiter consumed, matches neither. If the soft-rewound reading leaves the case undetermined higher up (precondition) and the real parser takes that reading, the case is discarded",
+            "a fatal delimiter right after a trailing delimiter is not documented: discarded",
             "ctx_parser / IifCtxParser outside a context panic by design: such expressions are not generated",
             "a seqN under a context passes the context on to every element (the Parser trait doc: delegating parsers propagate the context)",
         ]
@@ -2478,6 +2937,12 @@ impl Prop for C20 {
                     return;
                 }
             }
+        }
+        // debugging aid for sensitivity runs: C20_ONLY_LISTS=1 runs the list part alone
+        if std::env::var("C20_ONLY_LISTS").is_ok() {
+            let lists = sh.share(sh.tier.pick(48_000, 480_000));
+            sh.search(2, lists, 32, 320, |sh, tape| list_case(sh, tape));
+            return;
         }
         let words = all_words(6);
         let mut space = Space::new();
@@ -2515,6 +2980,9 @@ impl Prop for C20 {
         // random deeper expressions
         let exprs = sh.share(sh.tier.pick(400_000, 4_000_000));
         sh.search(1, exprs, 48, 400, |sh, tape| random_case(sh, tape, 4));
+        // list shapes x delimiter layouts
+        let lists = sh.share(sh.tier.pick(48_000, 480_000));
+        sh.search(2, lists, 32, 320, |sh, tape| list_case(sh, tape));
     }
 
     fn replay(&self, _sh: &mut Shard, inputs: &Value) -> Result<(), Violation> {
